@@ -110,8 +110,10 @@ class Block:
 
 
 def trait_def(name, generics='', unsafe=False, with_fn=True, where='', with_type=False, by_value=False):
+    # a const parameter of the trait is used in the trait's body (a defaulted item every block inherits)
+    uses_const = '    fn arr() -> [u8; N] { [0; N] }\n    const TWICE: usize = N * 2;\n' if 'const N: usize' in generics else ''
     return ('pub %strait %s%s' + (' ' + where if where else '') + ' {\n    const NAME: &\'static str;\n    const ID: u8 = 0;\n'
-            + ('    type Out;\n' if with_type else '') + ('    fn k(self) -> u8;\n' if by_value else '') +
+            + ('    type Out;\n' if with_type else '') + ('    fn k(self) -> u8;\n' if by_value else '') + uses_const +
             '    fn f() -> &\'static str { "default" }\n}\n') % ('unsafe ' if unsafe else '', name, generics)
 
 
